@@ -240,6 +240,4 @@ def search(ctx, deep):
             "sample": {"program": tl.render_prog(gen_base(random.Random(ctx.seed)))}}, fails
 
 def replay(obj):
-    if "input" in obj and isinstance(obj["input"], list):
-        return [oracles.impl_models(t, 2) for t in obj["input"]]
-    return oracles.impl_models(obj["text"], obj.get("h", 2))
+    return oracles.replay_record(obj, 2)
